@@ -2168,3 +2168,58 @@ V('c06-range-single-unguarded', 'C06', 'R6.5', SEQSET,
                 return range(elem, elem + 1)
             else:
                 return ()''', '''            return range(elem, elem + 1)''')
+V('c09-logindisabled-substring', 'C09', 'R9.5', STATE,
+  "        if b'LOGINDISABLED' in self.capability:\n            raise NotSupportedError('LOGIN is disabled.')",
+  "        if b'LOGINDISABLED' in self._capability:\n            raise NotSupportedError('LOGIN is disabled.')")
+V('c10-seen-also-when-flagged', 'C10', 'R10.6', SESS,
+  '''            if set_seen:
+                msg = await mbx.update(cached_msg.uid, cached_msg,
+                                       frozenset({Seen}), FlagOp.ADD)''',
+  '''            if set_seen or cached_msg.uid in selected.session_flags.recent:
+                msg = await mbx.update(cached_msg.uid, cached_msg,
+                                       frozenset({Seen}), FlagOp.ADD)''')
+V('c11-maildir-get-cached-first', 'C11', 'R11.5', MAILDIRMBX,
+  '''        if name == 'INBOX':
+            maildir = self._inbox_maildir
+        else:
+            try:
+                maildir = self._layout.get_folder(name, self.delimiter)
+            except FileNotFoundError as exc:
+                raise KeyError(name) from exc
+        if name in self._cache:
+            mbx = self._cache[name]
+        else:''', '''        if name in self._cache:
+            return await self._cache[name].reset()
+        if name == 'INBOX':
+            maildir = self._inbox_maildir
+        else:
+            try:
+                maildir = self._layout.get_folder(name, self.delimiter)
+            except FileNotFoundError as exc:
+                raise KeyError(name) from exc
+        if name in self._cache:
+            mbx = self._cache[name]
+        else:''')
+V('c14-multiappend-except-exception', 'C14', 'R14.2', SESS,
+  '''        except BaseException:
+            # MULTIAPPEND is all-or-nothing, undo the messages already added.''',
+  '''        except Exception:
+            # MULTIAPPEND is all-or-nothing, undo the messages already added.''')
+V('c14-multiappend-twin-tuple', 'C14', 'R14.2', SESS,
+  '''        except BaseException:
+            # MULTIAPPEND is all-or-nothing, undo the messages already added.''',
+  '''        except (Exception, asyncio.CancelledError):
+            # MULTIAPPEND is all-or-nothing, undo the messages already added.''',
+  expect='silent')
+V('c15-rename-inside-with', 'C15', 'R15.1', 'pymap/backend/maildir/io.py',
+  '''            self.write(tmp)
+        os.rename(tmp.name, file_path)''',
+  '''            self.write(tmp)
+            os.rename(tmp.name, file_path)''')
+V('c17-maildir-copy-subdir-only-recent', 'C17', 'R17.8', MAILDIRMBX,
+  "        copy_msg.set_subdir('new' if recent else 'cur')\n        async with destination",
+  "        if not recent:\n            copy_msg.set_subdir('cur')\n        async with destination")
+V('c17-maildir-copy-twin-ifelse', 'C17', 'R17.8', MAILDIRMBX,
+  "        copy_msg.set_subdir('new' if recent else 'cur')\n        async with destination",
+  "        if recent:\n            copy_msg.set_subdir('new')\n        else:\n            copy_msg.set_subdir('cur')\n        async with destination",
+  expect='silent')
